@@ -346,7 +346,13 @@ func c03(c *Ctx) {
 		v := fn.Obj.Type().(*types.Signature).Params().At(0)
 		subj := loopSubject(fn, v)
 		ppe := &predEval{ix: px}
-		if subj == nil {
+		if set, ok := containsAnySet(pinfo, fn, v); ok && subj == nil {
+			// library form: return strings.ContainsAny(v, "<set>") (or IndexAny(...) >= 0 / != -1)
+			diff, n := charSetDiff(charPoints(map[int64]bool{'A': true, 'F': true, 'a': true, 'f': true, '0': true, '9': true}, types.Typ[types.Rune]), func(p int64) (bool, bool) {
+				return p >= 0 && p < 0x110000 && strings.ContainsRune(set, rune(p)), true
+			}, func(p int64) bool { return inRange(p, 'A', 'F') })
+			c.Check(diff == "", "R2", "propagation|upperHex|detects exactly A-F ("+itoa(n)+" points)", at(px.M, fn.Pos()), "strings.ContainsAny(v, "+quote(set)+")", "upperHex "+diff+" (so upper-case hex passes extraction, or lower-case is refused)")
+		} else if subj == nil {
 			c.Undecided("R2", "propagation|upperHex|detects exactly A-F", at(px.M, fn.Pos()), "per-character variable not found")
 		} else {
 			consts := map[int64]bool{}
@@ -384,11 +390,11 @@ func c03(c *Ctx) {
 		// structural: the true return is dominated by len(part)==n, !upperHex(part), err==nil
 		for _, x := range g.Nodes {
 			rs, ok := x.N.(*ast.ReturnStmt)
-			if !ok || len(rs.Results) != 1 {
+			if !ok || len(rs.Results) == 0 {
 				continue
 			}
-			tv := pinfo.Types[rs.Results[0]]
-			if tv.Value == nil || !constant.BoolVal(tv.Value) {
+			tv := pinfo.Types[rs.Results[len(rs.Results)-1]]
+			if tv.Value == nil || tv.Value.Kind() != constant.Bool || !constant.BoolVal(tv.Value) {
 				continue
 			}
 			okLen, _ = g.DominatedByEdges(x, func(e *GEdge) bool {
@@ -633,44 +639,41 @@ func c03(c *Ctx) {
 			}
 		}
 		c.Check(good, "R5", "propagation|TraceContext.extract|version 255 (ff) rejected, 0..254 not", at(px.M, fn.Pos()), "version gate as specified", "version gate differs from the specification (ff is invalid; higher versions must be parsed)")
-		// version 0 with trailing data rejected
-		v0 := false
-		for _, x := range g.Nodes {
-			for _, e := range x.Succs {
-				if e.Cond == nil || e.Pol < 0 {
-					continue
+		// version 0 with trailing data (or unknown flag bits) rejected: with version = 0 and "rest != \"\"" (resp. "flags > 2")
+		// taken as true, no return of a non-zero span context is reachable
+		v0 := verVar != nil
+		for _, which := range []string{"trailing", "flags"} {
+			env := func(e ast.Expr) (constant.Value, bool) {
+				e = unparen(e)
+				if sameVar(pinfo, e, verVar) {
+					return constant.MakeInt64(0), true
 				}
-				hasV0, hasTrail := false, false
-				ast.Inspect(e.Cond, func(m ast.Node) bool {
-					if be, ok := m.(*ast.BinaryExpr); ok {
-						if be.Op == token.EQL && verVar != nil && sameVar(pinfo, be.X, verVar) {
-							if z, isC := constInt(pinfo, be.Y); isC && z == 0 {
-								hasV0 = true
-							}
-						}
-						if be.Op == token.NEQ {
-							if s, isS := constString(pinfo, be.Y); isS && s == "" {
-								hasTrail = true
+				if be, ok := e.(*ast.BinaryExpr); ok {
+					if which == "trailing" && be.Op == token.NEQ {
+						if s, isS := constString(pinfo, be.Y); isS && s == "" {
+							if tv, has := pinfo.Types[be.X]; has && types.Identical(tv.Type.Underlying(), types.Typ[types.String]) {
+								return constant.MakeBool(true), true
 							}
 						}
 					}
-					return true
-				})
-				if hasV0 && hasTrail {
-					s, _ := g.ReachFromEdge(e, nil)
-					only := true
-					for y := range s {
-						if rs, ok := y.N.(*ast.ReturnStmt); ok && len(rs.Results) == 1 {
-							if _, isLit := unparen(rs.Results[0]).(*ast.CompositeLit); !isLit {
-								only = false
-							}
+					if which == "flags" && be.Op == token.GTR {
+						if z, isC := constInt(pinfo, be.Y); isC && z == 2 {
+							return constant.MakeBool(true), true
 						}
 					}
-					v0 = only
+				}
+				return nil, false
+			}
+			seen := g.ReachUnder(env)
+			for x := range seen {
+				if rs, ok := x.N.(*ast.ReturnStmt); ok && len(rs.Results) == 1 {
+					if _, isLit := unparen(rs.Results[0]).(*ast.CompositeLit); !isLit {
+						v0 = false
+					}
 				}
 			}
 		}
-		c.Check(v0, "R5", "propagation|TraceContext.extract|version 00 with trailing data rejected", at(px.M, fn.Pos()), "strict parsing of the only known version", "a version-00 traceparent with extra fields is accepted")
+		c.Check(v0, "R5", "propagation|TraceContext.extract|version 00 with trailing data or unknown flag bits rejected", at(px.M, fn.Pos()), "strict parsing of the only known version", "a version-00 traceparent with extra fields (or flag bits above 2) is accepted")
 	}
 	{
 		k, _ := px.Pkg.Types.Scope().Lookup("supportedVersion").(*types.Const)
@@ -895,4 +898,38 @@ func sharedSliceWrites(tx *PkgIndex, fn *FuncInfo, isRoot func(ast.Expr) bool) [
 func isIndexOnly(e ast.Expr) bool {
 	_, ok := unparen(e).(*ast.IndexExpr)
 	return ok
+}
+
+// containsAnySet recognises a function body of the form `return strings.ContainsAny(v, "set")`, `return strings.IndexAny(v, "set") >= 0`
+// or `!= -1` over parameter v and returns the set.
+func containsAnySet(info *types.Info, fn *FuncInfo, v *types.Var) (string, bool) {
+	body := fn.Body()
+	if body == nil || len(body.List) != 1 {
+		return "", false
+	}
+	rs, ok := body.List[0].(*ast.ReturnStmt)
+	if !ok || len(rs.Results) != 1 {
+		return "", false
+	}
+	e := unparen(rs.Results[0])
+	setOf := func(call *ast.CallExpr, name string) (string, bool) {
+		if !isCallTo(info, call, name) || len(call.Args) != 2 || !sameVar(info, call.Args[0], v) {
+			return "", false
+		}
+		return constString(info, call.Args[1])
+	}
+	if call, ok := e.(*ast.CallExpr); ok {
+		return setOf(call, "strings.ContainsAny")
+	}
+	if be, ok := e.(*ast.BinaryExpr); ok {
+		if call, ok := unparen(be.X).(*ast.CallExpr); ok {
+			if s, ok := setOf(call, "strings.IndexAny"); ok {
+				z, isC := constInt(info, be.Y)
+				if isC && ((be.Op == token.GEQ && z == 0) || (be.Op == token.NEQ && z == -1) || (be.Op == token.GTR && z == -1)) {
+					return s, true
+				}
+			}
+		}
+	}
+	return "", false
 }
